@@ -7,4 +7,4 @@ Extraction "model.ml" io_witness N.div_eucl
   set_value set_multiple_value remove_value get_value has_key get_multiple_value
   save_bytes load_bytes load_into restart save_script fs_step fs_run images_from crash_atomic_chk
   run_op dec uni_new save_universe restore_universe save_port restore_port
-  set_priority_static set_priority_inherit save_script_enospc set_value_uint set_value_int set_multiple_value_uint set_value_bool get_value_bool script_close_failed script_rename_failed.
+  set_priority_static set_priority_inherit save_script_enospc set_value_uint set_value_int set_multiple_value_uint set_value_bool get_value_bool script_close_failed script_rename_failed fd_balance.
